@@ -25,7 +25,7 @@ macro_rules! rcinst {
 cinst!(c10_range_single_page, [256, 2, 3, 4], 0xffff800080604000, 0xffff800080604000, false, false, false, false);
 cinst!(c10_range_p1_unaligned_window, [1, 2, 3, 4], 0x8080664000, 0x80806c8000, false, false, false, false);
 cinst!(c10_range_two_p1_tables, [1, 2, 3, 4], 0x808040a000, 0x8080614000, false, false, false, false);
-cinst!(c10_range_two_p3_slots_huge3, [1, 2, 3, 4], 0x8080664000, 0x80c0005000, false, true, false, false);
+cinst!(c10_range_two_p3_slots_huge3, [1, 2, 3, 4], 0x80bfff0000, 0x80c0005000, false, true, false, false);
 // range inside the level-1 table under the LOWER sibling slot: the higher sibling table lies beyond the range's end and must stay (C10x)
 cinst!(c10_range_before_sibling_table, [1, 2, 3, 4], 0x8080410000, 0x8080420000, false, false, false, false);
 cinst!(c10_range_empty, [1, 2, 3, 4], 0x8080605000, 0x8080604000, false, false, false, false);
@@ -44,7 +44,7 @@ cinst!(c10t_range_first_page, [0, 0, 0, 1], 0x0, 0x0, false, false, false, false
 cinst!(c10t_whole_sub5_huge3, [1, 2, 3, 4], 0x0, 0xfffffffffffff000, true, true, true, false);
 // ---- RecursivePageTable
 rcinst!(c10_rec_range_p1_unaligned_window_nr, [1, 300, 3, 4], 0xcb00664000, 0xcb006c8000, false, false, false);
-rcinst!(c10_rec_range_two_p3_slots_huge3_nr, [1, 2, 3, 4], 0x8080664000, 0x80c0005000, false, true, false);
+rcinst!(c10_rec_range_two_p3_slots_huge3_nr, [1, 2, 3, 4], 0x80bfff0000, 0x80c0005000, false, true, false);
 rcinst!(c10t_rec_whole_plain_nr, [1, 2, 3, 4], 0x0, 0xfffffffffffff000, true, false, false);
 rcinst!(c10t_rec_range_two_p1_tables_nr, [1, 2, 3, 4], 0x808040a000, 0x8080614000, false, false, false);
 rcinst!(c10t_rec_whole_huge3_nr, [1, 2, 3, 4], 0x0, 0xfffffffffffff000, true, true, false);
